@@ -418,7 +418,14 @@ func checkDecision(c *rig.Ctx, ref *ignoreRef, pats []ipat, name string, st *c46
 				matching = append(matching, p)
 			}
 		}
-		c.Violation("c46/match/want-"+want+"-got-"+got,
+		// class of the input (observation only): does a matching pattern contain the single-character wildcard?
+		class := "plain-patterns"
+		for _, p := range matching {
+			if strings.Contains(p.Pattern, "?") {
+				class = "question-mark-patterns"
+			}
+		}
+		c.Violation("c46/match/"+class+"/want-"+want+"-got-"+got,
 			fmt.Sprintf("table name %q against %v: the documented rule (most specific matching pattern wins; specificity = strict inclusion of the sets of matched names; equally specific contradicting patterns conflict) gives %q, IsTableNameIgnored gives %q", name, matching, want, got),
 			map[string]any{"patterns": pats, "matching": matching, "name": name})
 	}
